@@ -6,7 +6,10 @@
      (b) by TLC on every graph dumped from the REAL committed base store (RealmDump.tla).
 
      Ids        set of persisted object ids
-     Counted    ids whose reference count is tracked exactly (objects of realm packages)
+     Counted    ids whose clauses are evaluated (objects of realm packages all of whose possible
+                referrers are in Ids)
+     RootIds    where reachability starts (the PackageValues; in a partial dump also the code
+                objects kept only as owners / referrers of the data objects)
      IsPkg(o)   o is a PackageValue (root convention: RefCount 1, no persisted referrer)
      Rc(o), Owner(o) (NoId when none), Esc(o), HashOK(o)
      Cnt(p, o)  number of references from p's stored bytes to o
@@ -23,7 +26,7 @@
      * an unreachable cycle stays persisted (reference counting) - the statement exempts it. *)
 EXTENDS Integers, FiniteSets
 
-CONSTANTS Ids, Counted, NoId, Ext,
+CONSTANTS Ids, Counted, RootIds, NoId, Ext,
           IsPkg(_), Rc(_), Owner(_), Esc(_), HashOK(_), Cnt(_, _), InDeg(_), Out(_)
 
 \* ---- the five clauses, per object (so that a failing object can be named) ----
@@ -44,7 +47,7 @@ HashOKAt(o) == HashOK(o)
 RECURSIVE Closure(_)
 Closure(S) == LET T == S \cup (UNION {Out(p) : p \in S} \cap Ids)
               IN IF T = S THEN S ELSE Closure(T)
-Reachable == Closure({o \in Ids : IsPkg(o)})
+Reachable == Closure(RootIds)
 \* an unreachable object is tolerated only when reference counting keeps it alive through a
 \* cycle: inside the unreachable part every object still has a referrer
 ReachOKIn(o, R) == o \in R \/ \E p \in Ids \ R : Cnt(p, o) > 0
